@@ -106,7 +106,9 @@ def parse_and_check_signature_blob(
         check_valid_signature(sig_blob)
     if flags & VERIFY_STRICTENC:
         check_defined_hashtype_signature(sig_blob)
-    sig_pair, signature_type = parse_signature_blob(sig_blob)
+    # signatures that passed (or were not asked to pass) the strict checks are read leniently
+    sig_pair = der.sigdecode_der_lax(sig_blob[:-1])
+    signature_type = ord(sig_blob[-1:])
     if flags & VERIFY_LOW_S:
         generator = vm.generator_for_signature_type(signature_type)
         check_low_der_signature(sig_pair, generator)
